@@ -207,6 +207,8 @@ def register(reg):
     register_cleanup(reg)
     register_minsep(reg)
     register_base_selection(reg)
+    register_info(reg)
+    register_setup(reg)
 
 
 # =============================================================================================
@@ -250,6 +252,7 @@ class ChunkForMetarize(Spec):
         fields = {'_prms': prms, '_data': Opaque('chunk data'), '_slices': None, '_groups': None, '_layers': None,
                   '_clouds_above_msa_buffer': SBool(z3.Bool('flag'))}
         ghost = {'n_' + self.which: SInt(N, 'int'), 'max_hits': mh, 'nhits': nh, 'N': N, 'which': self.which}
+        _hit_table(ctx, IDCOLS[self.which], facts=False)       # ghost view of the hit table the helpers' contracts speak about
         for nm, t in (('N', N), ('max_hits', mh), ('MAX_HITS_OKTA0', max0), ('MAX_HOLES_OKTA8', max8)):
             ctx.extractors[nm] = (lambda m, t=t: smt.z3val_to_py(m.eval(t, model_completion=True)))
         ctx.extractors['nhits'] = lambda m: [smt.z3val_to_py(m.eval(nh[j], model_completion=True))
@@ -469,7 +472,12 @@ def _metarize_post(result, self, which):
     if pi is not None:
         # C03 through the sort: row i of the final table is set pi(i) and carries that set's okta
         out['C03.okta_rule'] = Forall(0, N, lambda i: okta[i] == okta_of(nh[pi(i)], mh, max0, max8))
-        cid, cids = T.col('cluster_id'), g.get('cids')
+    # C04: every base lies between the lowest and the highest member hit of its own set; thickness = max - min; mean inside
+    mn, mx, me, th = (T.col(c) for c in ('height_min', 'height_max', 'height_mean', 'thickness'))
+    base = T.col('height_base')
+    out['C04.base_between_min_and_max'] = Forall(0, N, lambda i: And(_rv(mn[i]) <= _rv(base[i]), _rv(base[i]) <= _rv(mx[i])))
+    out['C04.mean_between_min_and_max'] = Forall(0, N, lambda i: And(_rv(mn[i]) <= _rv(me[i]), _rv(me[i]) <= _rv(mx[i])))
+    out['C04.thickness'] = Forall(0, N, lambda i: And(Not(_isnan(th[i])), _rv(th[i]) == _rv(mx[i]) - _rv(mn[i]), _rv(th[i]) >= 0))
     return out
 
 
@@ -497,7 +505,9 @@ def register_metarize2(reg):
         loops={0: {'invariant': _metarize_inv, 'modifies': ['pdf', 'ind', '_'], 'modifies_cols': {'pdf': ['code']},
                    'col_models': {'code': lambda n: fresh_column(n, 'code', 'str', None, with_defd=True)}}},
         canaries={'unsorted': lambda result, self, which: z3.BoolVal(False) if not isinstance(self.fields['_' + which], STable) else
-                  Forall(0, self.fields['_' + which].n, lambda i: Not(self.fields['_' + which].col('significant')[i]))},
+                  Forall(0, self.fields['_' + which].n, lambda i: Not(self.fields['_' + which].col('significant')[i])),
+                  'base_is_always_the_minimum': lambda result, self, which: z3.BoolVal(False) if not isinstance(self.fields['_' + which], STable) else
+                  Forall(0, self.fields['_' + which].n, lambda i: _rv(self.fields['_' + which].col('height_base')[i]) == _rv(self.fields['_' + which].col('height_min')[i]))},
     ))
 
 
@@ -663,9 +673,19 @@ from pyvc.lib import SArr
 from pyvc.rows_model import SRowSeries
 
 BaseOfSet = z3.Function('base_of_set', z3.IntSort(), z3.RealSort())        # ghost: value returned by the base routine for table row k
+#: ghost row -> hit maps.  In the base routine: a member hit not above / not below the base of row k (ghost-assigned per iteration).
+#: In _add_sligrolay_information they are unconstrained, so a clause stated at WitLo(k) / WitHi(k) is the clause for every hit.
+WitLo = z3.Function('wit_lo', z3.IntSort(), z3.IntSort())
+WitHi = z3.Function('wit_hi', z3.IntSort(), z3.IntSort())
 
 
-def _hit_table(ctx, idcol):
+def _between_members(base_k, k, g, cid_k):
+    n, ids, h = g['n'], g['ids'], g['h']
+    return And(WitLo(k) >= 0, WitLo(k) < n, ids[WitLo(k)] == cid_k, h[WitLo(k)] <= base_k,
+               WitHi(k) >= 0, WitHi(k) < n, ids[WitHi(k)] == cid_k, base_k <= h[WitHi(k)])
+
+
+def _hit_table(ctx, idcol, facts=True):
     n = z3.Int('hits_n')
     ctx.assume(n >= 1)
     ctx.len_vars.append(n)
@@ -680,10 +700,11 @@ def _hit_table(ctx, idcol):
             idcol: (lambda i: SInt(ids[i], 'npint'))}
     fr = SRows(n, cols, (lambda i: i), positional=True)
     fr.kinds = {'ceilo': 'str', 'dt': 'float', 'height': 'float', 'type': 'int', idcol: 'int'}
-    # class invariant of the hit table (C05): a hit belongs to a set iff its height is valid
-    ctx.assume(Forall(0, n, lambda i: (ids[i] >= 0) == Not(hn[i]), name='ci'))
-    # the properties' own quantifier: hit heights in [0, 100000) ft
-    ctx.assume(Forall(0, n, lambda i: Implies(Not(hn[i]), And(h[i] >= 0, h[i] < 100000)), name='hr'))
+    if facts:
+        # class invariant of the hit table (C05): a hit belongs to a set iff its height is valid
+        ctx.assume(Forall(0, n, lambda i: (ids[i] >= 0) == Not(hn[i]), name='ci'))
+        # the properties' own quantifier: hit heights in [0, 100000) ft
+        ctx.assume(Forall(0, n, lambda i: Implies(Not(hn[i]), And(h[i] >= 0, h[i] < 100000)), name='hr'))
     ctx.ghost['hits'] = dict(n=n, ceilo=ceilo, dt=dt, h=h, hn=hn, ty=ty, ids=ids, frame=fr)
     return fr
 
@@ -698,7 +719,8 @@ class ChunkWithHits(Spec):
         excl = [SStr(z3.String(f'excluded_{k}')) for k in range(self.n_excl)]
         prms = {'EXCLUDE_FOR_BASE_HEIGHT_CALC': excl, 'MAX_HITS_OKTA0': Int(lo=0).make('MAX_HITS_OKTA0', ctx),     # documented meaning: a count
                 'BASE_LVL_LOOKBACK_PERC': Int(lo=1, hi=100).make('BASE_LVL_LOOKBACK_PERC', ctx),
-                'BASE_LVL_HEIGHT_PERC': Int(lo=0, hi=100).make('BASE_LVL_HEIGHT_PERC', ctx)}
+                'BASE_LVL_HEIGHT_PERC': Int(lo=0, hi=100).make('BASE_LVL_HEIGHT_PERC', ctx),
+                'LOWESS': {'frac': SFloat(z3.Real('LOWESS_frac'), False, 'float'), 'it': SInt(z3.Int('LOWESS_it'), 'int')}}
         N = z3.Int('N')
         ctx.assume(N >= 0)
         return SChunk(CHUNK, {'_prms': prms, '_data': fr}, {'N': N, 'which': self.which})
@@ -768,7 +790,9 @@ def to_bool(v):
 def _slb_inv(E, i):
     T = E.pdf
     base = T.col('height_base')
+    g = smt.CURRENT_CTX.ghost['hits']
     return {'bases': Forall(0, i, lambda k: cell(base, k, lambda v: And(Not(_isnan(v)), _rv(v) == BaseOfSet(k), _rv(v) >= 0, _rv(v) < 100000))),
+            'between_two_members': Forall(0, i, lambda k: cell(base, k, lambda v: _between_members(_rv(v), k, g, E.cluster_ids[k]))),
             'rows': T.n == E.self.ghost['N']}
 
 
@@ -790,6 +814,12 @@ def _slb_body(E, i):
     # ghost assignment: BaseOfSet(i) := the value the base routine returned for this set (unconstrained before: the invariant only
     # speaks about rows k < i)
     ctx.assume(BaseOfSet(i) == res.v)
+    wits = ctx.ghost.get('sel_witnesses', [])
+    if len(wits) != 1:
+        return {'one_call_of_the_base_routine': False}
+    # ghost assignment: WitLo(i) / WitHi(i) := the selected hits the base routine's contract names as lying not above / not below
+    ctx.assume(And(WitLo(i) == wits[0][0], WitHi(i) == wits[0][1]))
+    ctx.hint(wits[0][0], wits[0][1])
     out = {'cell_holds_the_result': cell(E.pdf.col('height_base'), i, lambda v: _rv(v) == res.v)}
     if not excl:
         out['selection_is_all_members'] = Forall(0, n, lambda j: to_bool(mask.at(j)) == member(j))
@@ -823,7 +853,14 @@ def register_base_selection(reg):
                   'not_below_a_selected_hit': Exists(0, g_['n'], lambda a: And(to_bool(data_indexer.at(a)), g_['h'][a] <= _rv(result))),
                   'not_above_a_selected_hit': Exists(0, g_['n'], lambda b: And(to_bool(data_indexer.at(b)), _rv(result) <= g_['h'][b]))}
         if not (smt.CURRENT_CTX.fn_stack and smt.CURRENT_CTX.fn_stack[0].endswith('._calculate_base_height_for_selection')):
-            return inside                      # what call sites may rely on
+            # what call sites may rely on (the two existentials with explicit, logged witnesses)
+            c_ = smt.CURRENT_CTX
+            wa, wb = smt.fresh_int('sel_lo'), smt.fresh_int('sel_hi')
+            c_.ghost.setdefault('sel_witnesses', []).append((wa, wb))
+            c_.hint(wa, wb)
+            return {'finite': Not(_isnan(result)),
+                    'not_below_a_selected_hit': And(wa >= 0, wa < g_['n'], to_bool(data_indexer.at(wa)), g_['h'][wa] <= _rv(result)),
+                    'not_above_a_selected_hit': And(wb >= 0, wb < g_['n'], to_bool(data_indexer.at(wb)), _rv(result) <= g_['h'][wb])}
         calls = [c for c in smt.CURRENT_CTX.ghost.get('calls', []) if c[0] == 'ampycloud.utils.utils.calc_base_height']
         if len(calls) != 1:
             return {'one_call_of_calc_base_height': False}
@@ -860,6 +897,9 @@ def register_base_selection(reg):
             'every_row_gets_its_base': Forall(0, result.n, lambda k: cell(result.col('height_base'), k, lambda v: And(Not(_isnan(v)), _rv(v) == BaseOfSet(k)))),
             # a base lies between two member hits: finite and inside the range of the hit heights
             'finite_in_range': Forall(0, result.n, lambda i: cell(result.col('height_base'), i, lambda v: And(Not(_isnan(v)), _rv(v) >= 0, _rv(v) < 100000))),
+            # C04: each base lies between two member hits of its own set
+            'between_two_members': Forall(0, result.n, lambda k: cell(result.col('height_base'), k, lambda v: _between_members(
+                _rv(v), k, smt.CURRENT_CTX.ghost['hits'], cluster_ids[k]))),
             'same_table': result is pdf},
         loops={0: {'invariant': _slb_inv, 'modifies': ['pdf', 'ind', 'cid', 'in_sligrolay', 'in_sligrolay_filtered'],
                    'modifies_cols': {'pdf': ['height_base']},
@@ -867,6 +907,217 @@ def register_base_selection(reg):
                    'body_obligations': _slb_body,
                    'assume_in_body': lambda E, i: [_member_exists(E)]}},
     ))
+
+
+# =============================================================================================
+# statistics of a set (C04): _add_sligrolay_information
+# =============================================================================================
+STAT_COLS = ('height_mean', 'height_std', 'height_min', 'height_max', 'thickness', 'fluffiness')
+
+
+def _fluff_result(name, ctx, pts, kwargs):
+    f = SFloat(smt.fresh_real('fluffiness'), False, 'npfloat')
+    ctx.ghost.setdefault('fluff_calls', []).append((pts, kwargs, f))
+    return (f, Opaque('LOWESS-smoothed points'))
+
+
+def _info_facts(T, k, g, cids):
+    """what holds for row k of the table once its statistics are filled in (dict of named facts)"""
+    mn, mx, me, sd, th, fl = (T.col(c) for c in ('height_min', 'height_max', 'height_mean', 'height_std', 'thickness', 'fluffiness'))
+    n, ids, h = g['n'], g['ids'], g['h']
+    if any(c.dtype == 'unset' for c in (mn, mx, me, sd, th, fl)):
+        return {'filled': z3.BoolVal(False)}
+    inside = lambda W: Implies(And(W(k) >= 0, W(k) < n, ids[W(k)] == cids[k]), And(_rv(mn[k]) <= h[W(k)], h[W(k)] <= _rv(mx[k])))
+    return {'min_max_mean_finite': And(cell(mn, k, lambda v: Not(_isnan(v))), cell(mx, k, lambda v: Not(_isnan(v))), cell(me, k, lambda v: Not(_isnan(v)))),
+            'std_nan_or_non_negative': cell(sd, k, lambda v: Or(_isnan(v), _rv(v) >= 0)),
+            'thickness_is_max_minus_min': cell(th, k, lambda v: And(Not(_isnan(v)), _rv(v) == _rv(mx[k]) - _rv(mn[k]), _rv(v) >= 0)),
+            'fluffiness_finite_non_negative': cell(fl, k, lambda v: And(Not(_isnan(v)), _rv(v) >= 0)),
+            'mean_between_min_and_max': And(_rv(mn[k]) <= _rv(me[k]), _rv(me[k]) <= _rv(mx[k])),
+            'min_max_in_range': And(_rv(mn[k]) >= 0, _rv(mx[k]) < 100000),
+            'every_member_between_min_and_max': And(inside(WitLo), inside(WitHi))}
+
+
+INFO_FACTS = ('min_max_mean_finite', 'std_nan_or_non_negative', 'thickness_is_max_minus_min', 'fluffiness_finite_non_negative',
+              'mean_between_min_and_max', 'min_max_in_range', 'every_member_between_min_and_max')
+
+
+def _info_all(T, hi, g, cids):
+    return {f: Forall(0, hi, lambda k, f=f: _info_facts(T, k, g, cids).get(f, z3.BoolVal(False))) for f in INFO_FACTS}
+
+
+def _info_inv(E, i):
+    g = smt.CURRENT_CTX.ghost['hits']
+    return {**_info_all(E.pdf, i, g, E.cluster_ids), 'rows': E.pdf.n == E.self.ghost['N']}
+
+
+def _info_body(E, i):
+    """one iteration, table row i / set id cid: each statistic is the library reduction of the heights of exactly the member hits"""
+    ctx = smt.CURRENT_CTX
+    g = ctx.ghost['hits']
+    n, ids = g['n'], g['ids']
+    member = lambda j: ids[j] == E.cid
+    red = ctx.ghost.get('reductions', [])
+    out = {}
+    if [r[0] for r in red] != ['mean', 'std', 'min', 'max']:
+        return {'one_mean_std_min_max_each': False}
+    T = E.pdf
+    for (kind, selc, res), colname in zip(red, ('height_mean', 'height_std', 'height_min', 'height_max')):
+        out[f'{kind}_is_over_the_heights'] = selc.col == 'height'
+        out[f'{kind}_is_over_the_members'] = Forall(0, n, lambda j, selc=selc: selc.sel(j) == member(j))
+        out[f'{kind}_stored_in_its_cell'] = cell(T.col(colname), i, lambda v, res=res: And(_isnan(v) == _isnan(res), _rv(v) == _rv(res)))
+    fc = ctx.ghost.get('fluff_calls', [])
+    if len(fc) != 1:
+        return {'one_fluffiness_call': False}
+    pts, kwargs, f = fc[0]
+    from pyvc.rows_model import SSelValues
+    if not isinstance(pts, SSelValues):
+        return {'fluffiness_of_a_selection': False}
+    out['fluffiness_of_time_and_height'] = pts.selection.cols == ('dt', 'height')
+    out['fluffiness_is_over_the_members'] = Forall(0, n, lambda j: pts.selection.sel(j) == member(j))
+    lw = E.self.fields['_prms']['LOWESS']
+    out['fluffiness_with_the_LOWESS_settings'] = (set(kwargs) == set(lw)) and all(kwargs[k_] is lw[k_] for k_ in lw)
+    out['fluffiness_stored_in_its_cell'] = cell(T.col('fluffiness'), i, lambda v: _rv(v) == _rv(f))
+    return out
+
+
+def register_info(reg):
+    reg.add(Contract(
+        'ampycloud.fluffer.get_fluffiness', properties=('C04',),
+        params={'pts': Custom(lambda name, ctx: Opaque('pts'), 'a 2-D array of (dt, height) points'), 'kwargs': Custom(lambda name, ctx: {}, 'LOWESS settings')},
+        result=_fluff_result,
+        ensures=lambda result, pts, kwargs: {'finite_non_negative': And(Not(_isnan(result[0])), _rv(result[0]) >= 0)},
+        raises={}, notes='ASSUMED at call sites (statsmodels LOWESS; 2 * mean |y - fit|): finite and non-negative; checked by the bounded stand-in of C04'))
+    cases = [(w, {'self': ChunkWithHits(w, 0), 'which': Const(w), 'pdf': PdfAfterSetup(w), 'cluster_ids': CidsSpec()}) for w in WHICH]
+    reg.add(Contract(
+        f'{CHUNK}._add_sligrolay_information', properties=('C04', 'C01'),
+        cases=cases,
+        requires=lambda self, which, pdf, cluster_ids: {
+            'ids_are_sets': Forall(0, cluster_ids.len, lambda k: cluster_ids[k] >= 0),
+            'rows': cluster_ids.len == self.ghost['N']},
+        result=_info_result,
+        ensures=lambda result, self, which, pdf, cluster_ids: {
+            **_info_all(result, result.n, smt.CURRENT_CTX.ghost['hits'], cluster_ids),
+            'same_table': result is pdf},
+        canaries={'thickness_always_zero': lambda result, self, which, pdf, cluster_ids: Forall(0, result.n, lambda k: _rv(result.col('thickness')[k]) == 0),
+                  'std_never_nan': lambda result, self, which, pdf, cluster_ids: Forall(0, result.n, lambda k: Not(_isnan(result.col('height_std')[k])))},
+        loops={0: {'invariant': _info_inv, 'modifies': ['pdf', 'ind', 'cid', 'in_sligrolay', '_'],
+                   'modifies_cols': {'pdf': list(STAT_COLS)},
+                   'col_models': {c: (lambda n, c=c: fresh_column(n, c, 'float', 'npfloat', with_defd=True)) for c in STAT_COLS},
+                   'body_obligations': _info_body,
+                   'assume_in_body': lambda E, i: [_member_exists(E), _hint_witnesses(i)]}},
+    ))
+
+
+# =============================================================================================
+# _setup_sligrolay_pdf: the empty table, one row per set, ids recorded
+# =============================================================================================
+class ChunkForSetup(Spec):
+    """chunk as seen by _setup_sligrolay_pdf: ghost n_<which> (None = stage not run, else N >= 0) and the layers table (None or present)"""
+
+    def __init__(self, which, computed=True, layered=False):
+        self.which, self.computed, self.layered = which, computed, layered
+
+    def make(self, name, ctx):
+        N = z3.Int('N')
+        ctx.assume(N >= 0)
+        ctx.len_vars.append(N)
+        ghost = {'N': N, 'which': self.which}
+        if self.which in WHICH:
+            ghost['n_' + self.which] = SInt(N, 'int') if self.computed else None
+        fields = {'_slices': None, '_groups': None, '_layers': Opaque('layers table') if self.layered else None, '_data': Opaque('chunk data'),
+                  '_prms': {}}
+        return SChunk(CHUNK, fields, ghost)
+
+    def describe(self):
+        return f'chunk(which={self.which}, stage run={self.computed}, layers table present={self.layered})'
+
+
+def _pd_dataframe(interp, args, kwargs):
+    """pd.DataFrame(index=range(n), columns=[names]): n rows labelled 0..n-1, every cell a NaN object"""
+    from pyvc.engine import SRange
+    from pyvc.values import Unsupported
+    idx, cols = kwargs.get('index'), kwargs.get('columns')
+    if args or set(kwargs) != {'index', 'columns'} or not isinstance(cols, list) or not all(isinstance(c, str) for c in cols) or len(set(cols)) != len(cols):
+        raise Unsupported('pd.DataFrame(...) shape')
+    if isinstance(idx, range) and idx.step == 1 and idx.start == 0:
+        n = z3.IntVal(len(idx))
+    elif isinstance(idx, SRange) and z3.is_int_value(idx.lo) and idx.lo.as_long() == 0:
+        n = z3.If(idx.hi > 0, idx.hi, 0)
+    else:
+        raise Unsupported('pd.DataFrame index kind')
+    return STable(n, {c: fresh_column(n, c, 'unset') for c in cols})
+
+
+def _cluster_ids_result(name, ctx, self, which):
+    N = self.ghost['N']
+    return SList('int', N, z3.Array('cids', z3.IntSort(), z3.IntSort()), None, 'npint')
+
+
+def _setup_post(result, self, which='slices'):
+    pdf, cids = result
+    N = self.ghost['N']
+    want = TABLE_COLS + (['isolated'] if which == 'slices' else []) + (['ncomp'] if which == 'groups' else [])
+    cid_col = pdf.col('cluster_id')
+    out = {'one_row_per_set': And(cids.len == N, pdf.n == N),
+           'ids_are_sets': Forall(0, cids.len, lambda k: cids[k] >= 0),
+           'columns': list(pdf.cols) == want,
+           'row_labels_are_positions': pdf.index_is_range is True,
+           'cluster_id_is_the_set_id': Forall(0, N, lambda k: cell(cid_col, k, lambda v: v == cids[k])),
+           'other_cells_empty': all(pdf.col(c).dtype == 'unset' for c in want if c not in ('cluster_id', 'ncomp'))}
+    if which == 'groups':
+        out['ncomp_minus_one'] = Forall(0, N, lambda k: cell(pdf.col('ncomp'), k, lambda v: v == -1))
+    return out
+
+
+def _setup_inv(E, i):
+    pdf = E.pdf
+    inv = {'cluster_id': Forall(0, i, lambda k: cell(pdf.col('cluster_id'), k, lambda v: v == E.cluster_ids[k])),
+           'rows': And(pdf.n == E.self.ghost['N'], E.cluster_ids.len == E.self.ghost['N'])}
+    if E.which == 'groups':
+        inv['ncomp'] = Forall(0, i, lambda k: cell(pdf.col('ncomp'), k, lambda v: v == -1))
+        if E.self.fields['_layers'] is not None:
+            inv['no_iteration_once_layered'] = i == 0
+    return inv
+
+
+def register_setup(reg):
+    from pyvc.lib import LIB, LIB_DOC
+    LIB['pandas.DataFrame'] = _pd_dataframe
+    LIB_DOC['pandas.DataFrame(index=range(n), columns=names)'] = 'n rows labelled 0..n-1 (RangeIndex), the named columns, every cell NaN'
+    reg.add(Contract(
+        f'{CHUNK}._get_cluster_ids', properties=('C05', 'C01'),
+        result=_cluster_ids_result,
+        ensures=lambda result, self, which: {'ids_are_sets': Forall(0, result.len, lambda k: result[k] >= 0),
+                                             'one_per_set': result.len == self.ghost['N']},
+        notes=('ASSUMED at call sites (np.unique / np.delete on the id column): the distinct ids other than -1, ascending; their number is '
+               'n_<which> because ids are -1 or >= 0 (class invariant of the hit table, C05); checked by the bounded stand-in of C05')))
+    cases = []
+    for w in WHICH:
+        cases.append((w, {'self': ChunkForSetup(w), 'which': Const(w)}))
+        cases.append((f'{w},stage-not-run', {'self': ChunkForSetup(w, computed=False), 'which': Const(w)}))
+    cases.append(('groups,layered', {'self': ChunkForSetup('groups', layered=True), 'which': Const('groups')}))
+    cases.append(('layers,layered', {'self': ChunkForSetup('layers', layered=True), 'which': Const('layers')}))
+    cases.append(('unknown-which', {'self': ChunkForSetup('clusters'), 'which': Const('clusters')}))
+    old = reg.get(f'{CHUNK}._setup_sligrolay_pdf')
+    reg.add(Contract(
+        f'{CHUNK}._setup_sligrolay_pdf', properties=('C05', 'C14', 'C01', 'C08'),
+        cases=cases,
+        result=_setup_result,
+        ensures=_setup_post,
+        raises={'AmpycloudError': lambda self, which='slices': True if which not in WHICH else Or(
+            self.ghost.get('n_' + which) is None,
+            And(self.fields['_layers'] is not None, self.ghost['N'] >= 1) if which == 'groups' else False)},
+        loops={0: {'invariant': _setup_inv, 'modifies': ['pdf', 'ind', 'cid'],
+                   'modifies_cols': {'pdf': ['cluster_id', 'ncomp']},
+                   'col_models': {'cluster_id': lambda n: fresh_column(n, 'cluster_id', 'int', 'npint', with_defd=True),
+                                  'ncomp': lambda n: fresh_column(n, 'ncomp', 'int', 'int', with_defd=True)}}},
+        canaries={'never_any_row': lambda result, self, which='slices': result[0].n == 0},
+    ))
+
+
+def _hint_witnesses(i):
+    smt.CURRENT_CTX.hint(WitLo(i), WitHi(i))
+    return True
 
 
 def _member_exists(E):
